@@ -319,6 +319,14 @@ mtbl_reader_options *make_reader_options(bool verify, bool madvise)
 {
 	mtbl_reader_options *ro = mtbl_reader_options_init();
 	uint64_t how = optvar_next();
+	// the documented environment override of the madvise option: unset / "0" / "1" / something else.  It must not
+	// influence anything but the advice given to the kernel.  (Inherited by the CLI tools the harness starts.)
+	switch ((how >> 8) % 6) {
+	case 0: setenv("MTBL_READER_MADVISE_RANDOM", "0", 1); break;
+	case 1: setenv("MTBL_READER_MADVISE_RANDOM", "1", 1); break;
+	case 2: setenv("MTBL_READER_MADVISE_RANDOM", "yes", 1); break;
+	default: unsetenv("MTBL_READER_MADVISE_RANDOM");
+	}
 	auto set_v = [&](bool flipflop) { if (flipflop) mtbl_reader_options_set_verify_checksums(ro, !verify); mtbl_reader_options_set_verify_checksums(ro, verify); };
 	auto set_m = [&](bool flipflop) { if (flipflop) mtbl_reader_options_set_madvise_random(ro, !madvise); mtbl_reader_options_set_madvise_random(ro, madvise); };
 	bool skip_default_m = !madvise && (how & 16), skip_default_v = !verify && (how & 32);	// a default left unset
